@@ -12,7 +12,7 @@ Proof.
   unfold validate_did_entry. cbn [fst snd negb orb].
   destruct (validate_did did) eqn:Hv; [|discriminate]. cbn [andb].
   destruct (en_doc e) as [d|] eqn:Hd; [|discriminate].
-  destruct (doc_valid d); [|discriminate]. cbn [andb].
+  destruct (doc_valid_json d); [|discriminate]. cbn [andb].
   intros H. exists d. split; [exact Hd|].
   apply orb_true_iff in H as [H|H].
   - right. unfold entry_deactivated in H. rewrite Hd in H. apply andb_true_iff in H as [H1 H2].
